@@ -269,7 +269,9 @@ type vpC03Verdict struct {
 }
 
 // vpC03Judge is the oracle. names = the universe of handler-settable ordinary field names.
-func vpC03Judge(out []byte, state string, reqs []vpC03Req, names []string) (v vpC03Verdict) {
+// lenientCut: also tolerate that complete, correct responses BEFORE the size-mismatched one are lost
+// (open finding C03/stream-size-error-drops-buffered-pipelined-responses).
+func vpC03Judge(out []byte, state string, reqs []vpC03Req, names []string, lenientCut bool) (v vpC03Verdict) {
 	rd := bytes.NewReader(out)
 	br := bufio.NewReader(rd)
 	pos := func() int { return len(out) - rd.Len() - br.Buffered() }
@@ -287,7 +289,9 @@ func vpC03Judge(out []byte, state string, reqs []vpC03Req, names []string) (v vp
 	}
 	// the wire may end early only at or before a response whose stream does not match its declared size
 	// (the server aborts the connection, dropping whatever it had buffered), and only if it really closed
-	tolerateCut := func(i int) bool { return firstMis >= 0 && i <= firstMis && state == "closed" }
+	tolerateCut := func(i int) bool {
+		return firstMis >= 0 && state == "closed" && (i == firstMis || (i < firstMis && lenientCut))
+	}
 
 	for i, r := range reqs {
 		p := preds[i]
@@ -383,7 +387,7 @@ func vpC03Judge(out []byte, state string, reqs []vpC03Req, names []string) (v vp
 			}
 		case !m.IsStream:
 			if berr != nil {
-				if vpC03EOFish(berr) && pos() == len(out) && firstMis > i && state == "closed" {
+				if vpC03EOFish(berr) && pos() == len(out) && tolerateCut(i) {
 					v.Truncated = true
 					return v
 				}
@@ -421,6 +425,22 @@ func vpC03Judge(out []byte, state string, reqs []vpC03Req, names []string) (v vp
 				}
 				if !bytes.Equal(body, produced) {
 					return failf(i, "chunked body differs from what the stream yielded: %s%s", vpC03Diff(body, produced), ctx())
+				}
+			case resp.ContentLength < 0:
+				// neither Content-Length nor chunked: the body is delimited by the end of the connection, which is
+				// valid HTTP framing only if the server really closes (checked below through resp.Close)
+				if !resp.Close {
+					return failf(i, "neither Content-Length nor Transfer-Encoding, and net/http does not treat the response as close-delimited%s", ctx())
+				}
+				if berr != nil {
+					return failf(i, "reading the close-delimited body: %v", berr)
+				}
+				if !bytes.Equal(body, produced) {
+					if tolerateCut(i) && len(body) <= len(produced) && bytes.Equal(body, produced[:len(body)]) {
+						v.Truncated = true
+						return v
+					}
+					return failf(i, "close-delimited body differs from what the stream yielded: %s%s", vpC03Diff(body, produced), ctx())
 				}
 			default:
 				cl := int(resp.ContentLength)
@@ -501,6 +521,9 @@ func vpC03Judge(out []byte, state string, reqs []vpC03Req, names []string) (v vp
 				return failf(i, "says Connection: close but %d more bytes follow: %s", extra, vpQuote(out[pos():], 120))
 			}
 			if state != "closed" {
+				if !chunked && resp.ContentLength < 0 && !p.NoBody {
+					return failf(i, "has neither Content-Length nor Transfer-Encoding (its body would end with the connection) but the server kept the connection open (%s)%s", state, ctx())
+				}
 				return failf(i, "says Connection: close but the server kept the connection (%s)", state)
 			}
 			return v
